@@ -54,7 +54,7 @@ def run(prop, tier, seed, repo):
                              "uni": i % 4 == 3,      # non-ASCII game and action names (UTF-8 file)
                              "flags": [g.get("ps", "none") for g in c["games"]]})
         jobs = [{"kind": "batch", "names": s["names"], "tgs": s["tgs"], "file": s["file"], "style": s["style"],
-                 "dotslash": s["tid"] % 3 == 0, "flags": s["flags"], "uni": s["uni"], "budget": 120.0} for s in sessions]
+                 "dotslash": s["tid"] % 3 == 0, "flags": s["flags"], "uni": s["uni"], "clivariants": s["tid"] % 3 == 1, "budget": 120.0} for s in sessions]
         t1 = time.time()
         results = pool.run_jobs(jobs, repo, budget=120.0)
         for s, (events, status) in zip(sessions, results):
@@ -90,11 +90,19 @@ def run(prop, tier, seed, repo):
             for n in v["notes"]:
                 if not n.startswith("kinds:"):
                     res.notes[n] = res.notes.get(n, 0) + 1
+            nv = len(s.get("cli", {}).get("variants", []))
+            if nv:
+                res.notes["cli.variants"] = res.notes.get("cli.variants", 0) + nv
             if len(s["names"]) >= 2:
                 nontrivial.add(json.dumps([s["names"], s["kinds"]]))
             bad = []
             for c in v["fails"]:
                 kid, name = (c.split(":", 1) if c.startswith("K") and ":" in c.split(" ")[0] else (None, c))
+                if name.startswith("Machinery."):
+                    raise common.MachineryError("session %s: %s" % (s["tid"], name))
+                if name.startswith("X."):
+                    # growth beyond the listed properties: reported in the evidence, never a verdict
+                    res.notes["beyond:" + name] = res.notes.get("beyond:" + name, 0) + 1
                 if not name.startswith(prop + "."):
                     continue
                 ko = [x for x in known_open if x["id"] == kid and x["property"] == prop] if kid else []
@@ -134,7 +142,7 @@ def run(prop, tier, seed, repo):
 
 def replay(rep, repo):
     job = {"kind": "batch", "names": rep["names"], "tgs": rep["tgs"], "file": rep["file"], "style": rep["style"],
-           "flags": rep.get("flags", []), "uni": rep.get("uni", False)}
+           "flags": rep.get("flags", []), "uni": rep.get("uni", False), "clivariants": True}
     (events, status), = pool.run_jobs([job], repo, nproc=1, budget=120.0)
     ev = events[0] if events else {}
     print("names:", rep["names"], "kinds:", rep["kinds"], status)
